@@ -20,8 +20,13 @@ def tasks(tier, funcs=FUNCS):
             for f in funcs]
 
 
+# under contract for the typecode rule only (its index arithmetic needs
+# summation invariants over the blocks: not part of C19's function list)
+C15_ONLY = ['dense_concat']
+
+
 def run(report, tier, seed):
-    reps = cside.run_tasks(tasks(tier))
+    reps = cside.run_tasks(tasks(tier) + tasks(tier, C15_ONLY))
     c_common.feed(report, reps, KINDS)
     c_common.install_dense_replayer(report)
     report.floor = 12
@@ -35,7 +40,9 @@ def run(report, tier, seed):
         'of the returned index list is in [-dim, dim) - is ASSUMED: proving '
         'it needs a quantified invariant over buffer contents); values '
         'stored by indexed assignment (only the addressed element is '
-        'decided)']
+        'decided)',
+        'construction from lists of blocks (dense_concat): only the typecode '
+        'rule is decided; block sizes and element placement are not']
     report.assumptions += [
         'Python integers used as indices/sizes fit a C long',
         'contracts of the function tables num2PyObject/write_num/'
